@@ -1726,7 +1726,8 @@ class Network(Cached):
         :rtype: 1d numpy array [node] of floats >= 0
         """
         k = self.degree() * 1.0
-        return self.undirected_adjacency() * k / k[k != 0]
+        #  isolated nodes have no neighbours: 0 / 1 instead of 0 / 0
+        return self.undirected_adjacency() * k / np.where(k != 0, k, 1)
 
     @Cached.method(name="maximum neighbours' degrees")
     def max_neighbors_degree(self):
